@@ -128,6 +128,28 @@ FlagsOK(s, o) == \A i \in Idx(o) :
            /\ lk.rt = "L"
            /\ IF o.lines[i].lf[k] = "+" THEN Direct(lk, req[k]) ELSE Compl(lk, req[k])
 
+\* neighbourhood answers (C11): follow from the collections; compared when no
+\* placeholder link is around (a placeholder link is a dovetail of its segments too)
+NbrsOK(s, d, o) == (d.vlk = {} /\ VirtLinks(o) = {}) =>
+  \A i \in Idx(o) :
+    LET r == Rec(o.lines[i]) IN
+    (r.rt = "S" /\ r.name \in d.names \cup d.ph) =>
+       /\ BagOf(o.lines[i].nb[1]) = OthersVia(s, r.name, "dovetails_L")
+       /\ BagOf(o.lines[i].nb[2]) = OthersVia(s, r.name, "dovetails_R")
+       /\ BagOf(o.lines[i].nb[3]) = OthersVia(s, r.name, "edges_to_containers")
+       /\ BagOf(o.lines[i].nb[4]) = OthersVia(s, r.name, "edges_to_contained")
+       /\ BagOf(o.lines[i].nb[5]) = OthersVia2(s, r.name, "dovetails_L", "dovetails_R")
+TypesOK(s, o) == \A i \in RealIdx(o) :
+    LET r == Rec(o.lines[i]) IN
+    (r.rt \in {"L", "C", "E"}) =>
+       /\ o.lines[i].et = EdgeType(r)
+       /\ (EdgeType(r) = "L" =>
+             LET e == o.lines[i].ends IN
+             /\ Len(e) = 4
+             /\ {<<e[1][1], e[1][2]>>, <<e[2][1], e[2][2]>>} = EndsOf(r)
+             /\ (Cardinality(EndsOf(r)) = 2 => <<e[1][1], e[1][2]>> # <<e[2][1], e[2][2]>>)
+             /\ e[3] = e[2] /\ e[4] = e[1])
+
 \* identifiers and lookup (C09)
 LoggedVirtNames(o) == {Rec(o.lines[i]).name : i \in {j \in VirtIdx(o) : Rec(o.lines[j]).rt = "S"}}
 NamesOK(s, d, o) ==
@@ -169,6 +191,8 @@ ExpFails(s, o) ==
   \cup (IF NoShadow(s, d, o) THEN {} ELSE {"shadow"})
   \cup (IF Closed(o) /\ ~KeysOK(s, o) THEN {"keys"} ELSE {})
   \cup (IF Closed(o) /\ ~FlagsOK(s, o) THEN {"flags"} ELSE {})
+  \cup (IF NbrsOK(s, d, o) THEN {} ELSE {"nbrs"})
+  \cup (IF TypesOK(s, o) THEN {} ELSE {"etype"})
   \cup (IF NamesOK(s, d, o) THEN {} ELSE {"names"})
   \cup (IF LookupListed(o) /\ ~LookupOK(s, d, o) THEN {"lookup"} ELSE {})
   \cup (IF TopoOK(s, d, o) THEN {} ELSE {"components"})
